@@ -45,6 +45,12 @@ func (s *ScriptReader) Read(p []byte) (int, error) {
 		} else {
 			s.left = len(s.Data) - s.pos
 		}
+		if s.left < 0 {
+			// a negative cut is an EMPTY read: (0, nil), which io.Reader
+			// allows and callers must treat as "nothing happened"
+			s.left = 0
+			return 0, nil
+		}
 		if s.left <= 0 {
 			s.left = 1
 		}
